@@ -287,24 +287,32 @@ C37_Step(s, a) ==
 (***************************************************************************)
 ConeKey(s, a) == IF a.t = "Recv" THEN "Recv." \o Head(s.chan).k ELSE a.t
 
+\* Derived observables (computed by the harness from the expected and from the observed state alike):
+\*   srcReg  per slot: alive, reg, usable, snapshot present, its leap flag
+\*   srcAbs  per slot: snapshot offset + clk, snapshot time - clk, wide, source-side mean + clk, sample count
+\*           (invariant under clock steps, so they do not depend on whether this update reached a consensus)
+\*   usedOk  an estimate made in this step used only sources that are registered and usable
+\*   cons    this update reached a combined estimate (out.err or out.exit)
+\* Attribution rule (checks/clock.py): when an update's consensus decision itself differs (cons / used), what follows
+\* from it (steps, frequency, leap, accumulated steps) is not attributed to the properties about those.
 ConeTable ==
   [ Recv_M  |-> [C01 |-> {"out.steps", "out.exit", "acc", "inStartup", "clk", "dead"},
                  C02 |-> {"out.freqs", "out.freqOk", "slew", "f"},
-                 C03 |-> {"used", "out.err", "out.steps", "out.exit"},
+                 C03 |-> {"cons", "used"},
                  C04 |-> {"out.status", "leap"},
-                 C37 |-> {"src", "used", "chan"}],
+                 C37 |-> {"srcReg", "srcAbs", "usedOk", "chan"}],
     Recv_U  |-> [C01 |-> {}, C02 |-> {}, C03 |-> {}, C04 |-> {},
-                 C37 |-> {"src", "used", "chan", "out.err", "out.steps", "out.freqs", "out.status"}],
+                 C37 |-> {"src", "srcReg", "srcAbs", "used", "usedOk", "chan", "clk", "out.err", "out.steps", "out.freqs", "out.status"}],
     Recv_D  |-> [C01 |-> {}, C02 |-> {}, C03 |-> {}, C04 |-> {},
-                 C37 |-> {"src", "used", "chan", "out.err", "out.steps", "out.freqs", "out.status"}],
-    Add     |-> [C01 |-> {}, C02 |-> {}, C03 |-> {}, C04 |-> {}, C37 |-> {"src", "chan"}],
-    Meas    |-> [C01 |-> {}, C02 |-> {}, C03 |-> {}, C04 |-> {}, C37 |-> {"src", "chan"}],
-    Usable  |-> [C01 |-> {}, C02 |-> {}, C03 |-> {}, C04 |-> {}, C37 |-> {"src", "chan"}],
-    Drop    |-> [C01 |-> {}, C02 |-> {}, C03 |-> {}, C04 |-> {}, C37 |-> {"src", "chan"}],
+                 C37 |-> {"src", "srcReg", "srcAbs", "used", "usedOk", "chan", "clk", "out.err", "out.steps", "out.freqs", "out.status"}],
+    Add     |-> [C01 |-> {}, C02 |-> {}, C03 |-> {}, C04 |-> {}, C37 |-> {"src", "srcReg", "srcAbs", "chan"}],
+    Meas    |-> [C01 |-> {}, C02 |-> {}, C03 |-> {}, C04 |-> {}, C37 |-> {"src", "srcReg", "srcAbs", "chan"}],
+    Usable  |-> [C01 |-> {}, C02 |-> {}, C03 |-> {}, C04 |-> {}, C37 |-> {"src", "srcReg", "srcAbs", "chan"}],
+    Drop    |-> [C01 |-> {}, C02 |-> {}, C03 |-> {}, C04 |-> {}, C37 |-> {"src", "srcReg", "srcAbs", "chan"}],
     SlewEnd |-> [C01 |-> {}, C02 |-> {"out.freqs", "out.freqOk", "slew", "f"},
                  C03 |-> {}, C04 |-> {}, C37 |-> {}],
     Ghost   |-> [C01 |-> {}, C02 |-> {}, C03 |-> {}, C04 |-> {},
-                 C37 |-> {"src", "used", "clk", "out.err", "out.steps", "out.freqs", "out.status"}] ]
+                 C37 |-> {"src", "srcReg", "srcAbs", "used", "usedOk", "chan", "clk", "out.err", "out.steps", "out.freqs", "out.status"}] ]
 
 ConeKeyStr(k) == CASE k = "Recv.M" -> "Recv_M" [] k = "Recv.U" -> "Recv_U" [] k = "Recv.D" -> "Recv_D" [] OTHER -> k
 Cones(s, a) == ConeTable[ConeKeyStr(ConeKey(s, a))]
